@@ -2116,6 +2116,13 @@ func (a *Authenticator) handleClientAuthentication(ctx context.Context, negotiat
 	// Check if it's "YES" or if the negotiated auth method is not NONE
 
 	if !authRequired {
+		// The server's answer decides only whether an exchange takes place, not
+		// whether this client's own policy is met: when the client requires
+		// authentication, a server that declines it must be refused rather than
+		// trusted (its "NO" is peer-controlled data).
+		if a.config.Authentication == SecurityRequired {
+			return fmt.Errorf("server declined authentication but the client's policy requires it")
+		}
 		slog.Debug("🔐 CLIENT: No authentication required", "destination", "cedar")
 		return nil
 	}
